@@ -2437,7 +2437,10 @@ int case_compare (parse_node_t ** c1, parse_node_t ** c2) {
   if ((*c2)->kind == NODE_DEFAULT)
     return 1;
 
-  return (int)((*c1)->r.number - (*c2)->r.number);
+  /* the labels are 64-bit: do not let the difference go through int */
+  if ((*c1)->r.number < (*c2)->r.number)
+    return -1;
+  return (*c1)->r.number > (*c2)->r.number;
 }
 
 int string_case_compare (parse_node_t ** c1, parse_node_t ** c2) {
@@ -2460,7 +2463,7 @@ int string_case_compare (parse_node_t ** c1, parse_node_t ** c2) {
 void prepare_cases (parse_node_t * pn, size_t start) {
   parse_node_t **ce_start, **ce_end, **ce;
   size_t end;
-  int last_key, this_key;
+  int64_t last_key, this_key;
   int direct = 1;
 
   ce_start = (parse_node_t **) & mem_block[A_CASES].block[start];
@@ -2496,15 +2499,20 @@ void prepare_cases (parse_node_t * pn, size_t start) {
     }
   if ((*ce)->v.expr)
     {
-      last_key = (int)(*ce)->v.expr->r.number;
+      last_key = (*ce)->v.expr->r.number;
       direct = 0;
     }
   else
-    last_key = (int)(*ce)->r.number;
+    {
+      last_key = (*ce)->r.number;
+      /* the direct lookup table stores its minimum key as a 32-bit int */
+      if (pn->kind == NODE_SWITCH_NUMBERS && (last_key < INT32_MIN || last_key > INT32_MAX))
+        direct = 0;
+    }
   ce++;
   while (ce < ce_end)
     {
-      this_key = (int)(*ce)->r.number;
+      this_key = (*ce)->r.number;
       if (pn->kind == NODE_SWITCH_RANGES && this_key <= last_key)
         {
           char buf[1024];
@@ -2545,12 +2553,12 @@ void prepare_cases (parse_node_t * pn, size_t start) {
       (*(ce - 1))->l.expr = *ce;
       if ((*ce)->v.expr)
         {
-          last_key = (int)(*ce)->v.expr->r.number;
+          last_key = (*ce)->v.expr->r.number;
           direct = 0;
         }
       else
         {
-          if (last_key + 1 != this_key)
+          if (last_key == INT64_MAX || last_key + 1 != this_key)
             direct = 0;
           last_key = this_key;
         }
